@@ -9,6 +9,7 @@ mod asy;
 mod bodies;
 mod common;
 mod fes;
+mod intr;
 mod net;
 mod net_gen;
 mod net_oracles;
@@ -188,8 +189,25 @@ fn execute_net(prop: &str, p: &net::NetProgram) -> RunInfo {
         "C14" => net_oracles::check_c14(p, &res, &mut info),
         "C03" => net_oracles::check_c03_net(p, &res, &mut info),
         "C04" => {
-            // same program, same seed, again in this process
+            // same program, same seed, again in this process - for some programs while another thread of the process
+            // sets up a simulation of its own (it has to wait for this one; nothing it does may show here)
+            let other = p.intruder.map(|(k, kind)| {
+                let beats = res.trace.iter().filter(|r| matches!(r.ev, net::Ev::Beat { .. })).count().max(1);
+                intr::arm(k as usize % beats, move || {
+                    if kind % 2 == 0 {
+                        rt::build_and_drop_generic_runtime(u64::from(kind) * 1_000_000_000);
+                    } else {
+                        net::build_and_drop_empty_sim();
+                    }
+                })
+            });
             let res2 = net::run_net(p, &opts);
+            intr::disarm();
+            if let Some(h) = other {
+                if h.join().unwrap_or(false) {
+                    info.probe("other_thread_set_up_a_simulation_during_a_handler");
+                }
+            }
             let h2 = net::trace_hash(&res2.trace);
             info.events += res.ok.map_or(0, |o| o.1 as u64);
             info.sim_time_ns += u128::from(res.ok.map_or(0, |o| o.0));
